@@ -400,17 +400,18 @@ func genRef(t *testing.T, out *hx.Out, budget int) {
 			if how == "deadline" {
 				ctx, cancel = context.WithTimeout(rig.cl.Ctx(), 400*time.Millisecond)
 			}
-			rig.g.arm(1) // park before the second labelled call: the store's GetPod, right after pluginAddNode
+			rig.g.arm(1 << 30)
+			rig.g.armLabel("addnode-enter") // park between pluginAddNode and store.AddNode
 			done := make(chan bool, 1)
 			go func() { done <- rig.runCtx(ctx, a) }()
 			select {
-			case <-rig.g.parked:
+			case <-rig.g.parked2:
 				if how == "cancel" {
 					cancel()
 				} else {
 					<-ctx.Done()
 				}
-				rig.g.release()
+				rig.g.release2()
 				c.OKA = <-done
 			case ok := <-done:
 				c.OKA = ok
